@@ -223,6 +223,7 @@ func phiSubFor(v ssa.Value, c pctx) map[*ssa.Phi]ssa.Value {
 				if sub == nil {
 					sub = map[*ssa.Phi]ssa.Value{}
 				}
+				rv = localStored(rv)
 				sub[p] = rv
 				rec(rv, d+1)
 			}
@@ -302,7 +303,7 @@ func evalCond(v ssa.Value, c pctx) (val, known bool) {
 		if x.Op != token.EQL && x.Op != token.NEQ {
 			return false, false
 		}
-		a, b := resolveCtx(x.X, c), resolveCtx(x.Y, c)
+		a, b := localStored(resolveCtx(x.X, c)), localStored(resolveCtx(x.Y, c))
 		ka, aok := a.(*ssa.Const)
 		kb, bok := b.(*ssa.Const)
 		if a == x.X && b == x.Y && !(aok && bok) {
@@ -1062,6 +1063,11 @@ func consequences(l Lit) []Lit {
 				}
 			}
 		}
+		// a context whose error is nil is not done: its Done channel cannot have been the select case taken
+		if strings.HasPrefix(atom, "(invoke:context.Context.Err(") && strings.HasSuffix(atom, ") == nil)") {
+			x := atom[len("(invoke:context.Context.Err(") : len(atom)-len(") == nil)")]
+			out = append(out, Lit{Atom: "sel:recv:invoke:context.Context.Done(" + x + ")", Pos: false})
+		}
 		for _, ops := range [][2]string{{"<t", "==t"}, {"<", "=="}} {
 			if a, b, ok := splitTop(atom, ops[0]); ok {
 				out = append(out, Lit{Atom: "(" + b + " " + ops[0] + " " + a + ")", Pos: false})
@@ -1631,4 +1637,39 @@ func (e *Eng) fieldOf(v ssa.Value) (string, string, bool) {
 		return e.fieldOf(v.X)
 	}
 	return "", "", false
+}
+
+// localStored: v loads a local cell that was stored earlier in the same block (a spilled result of an inlined
+// helper with defers: "store tmp := x; ...; t = *tmp"); returns the stored value, else v.
+func localStored(v ssa.Value) ssa.Value {
+	u, ok := v.(*ssa.UnOp)
+	if !ok || u.Op != token.MUL {
+		return v
+	}
+	al, ok := u.X.(*ssa.Alloc)
+	if !ok {
+		return v
+	}
+	b := u.Block()
+	if b == nil {
+		return v
+	}
+	at := -1
+	for i, in := range b.Instrs {
+		if in == ssa.Instruction(u) {
+			at = i
+		}
+	}
+	for i := at - 1; i >= 0; i-- {
+		if st, ok := b.Instrs[i].(*ssa.Store); ok && st.Addr == ssa.Value(al) {
+			return st.Val
+		}
+		if _, isCall := b.Instrs[i].(ssa.CallInstruction); isCall {
+			// the cell may be captured; only a cell whose address does not escape is safe
+			if al.Heap {
+				return v
+			}
+		}
+	}
+	return v
 }
